@@ -136,7 +136,7 @@ func runReplay(pkgDir, tmpl string, subst map[string]string, test string) (bool,
 	ob, _ := json.Marshal(ov)
 	of := filepath.Join(work, "overlay.json")
 	os.WriteFile(of, ob, 0o644)
-	cmd := exec.Command("go", "test", "-overlay", of, "-vet=off", "-count=1", "-timeout", "60s", "-run", "^"+test+"$", "./"+pkgDir)
+	cmd := exec.Command("go", "test", "-overlay", of, "-vet=off", "-count=1", "-v", "-timeout", "60s", "-run", "^"+test+"$", "./"+pkgDir)
 	cmd.Dir = repoDir
 	cmd.Env = append(os.Environ(), "GOFLAGS=-mod=mod", "GOPROXY=off", "GOSUMDB=off", "GOTOOLCHAIN=local")
 	done := make(chan struct{})
